@@ -171,6 +171,7 @@ class Interp:
         self.depth = 0
         self.stack = []
         self.unit_checks = []
+        self.exact_le = False    # True: a <= b is kept exact (not identified with a < b); used when ties are in the quantifier
 
     # ------------------------------------------------------------------ calls
     def call(self, fi, args, kwargs=None, selfv=None, node=None):
@@ -217,11 +218,27 @@ class Interp:
 
     # ------------------------------------------------------------------ statements
     def block(self, body, env, mod):
-        for st in body:
+        for k, st in enumerate(body):
             sig = self.stmt(st, env, mod)
+            if sig is not None and sig[0] == 'guard':
+                # the statements after a conditional `continue`: executed on the environment of the arm that goes on,
+                # then merged with the environment of the arm that skipped
+                _, skip, e_skip, e_go = sig
+                rest = self.block(body[k + 1:], e_go, mod)
+                if rest is not None and rest[0] not in ('continue',):
+                    if rest[0] == 'guard':
+                        return rest
+                    self._poison_block(body[k + 1:], env, Unk('control flow after a conditional continue', st))
+                    return None
+                merge_env(env, e_skip, e_go, skip, st)
+                return None
             if sig is not None:
                 return sig
         return None
+
+    def _poison_block(self, body, env, u):
+        for st in body:
+            self._poison(st, env, u)
 
     def stmt(self, st, env, mod):
         try:
@@ -369,6 +386,11 @@ class Interp:
                 return None
             if s1 and s2 and s1[0] == 'return' and s2[0] == 'return':
                 return ('return', merge_val(s1[1], s2[1], tv.poly, st))
+            # `if c: continue` (or the mirror image): the rest of the loop body runs under (not c)
+            if (s1 and s1[0] == 'continue' and s2 is None) or (s2 and s2[0] == 'continue' and s1 is None):
+                skip = tv.poly if s1 else alg.b_not(tv.poly)
+                taken, other = (e1, e2) if s1 else (e2, e1)
+                return ('guard', skip, taken, other)
             self._poison(st, env, Unk('branches of a data-dependent if end differently', st))
             return None
         # unknown condition: everything assigned in either branch is unknown
@@ -951,9 +973,9 @@ class Interp:
         elif opn is ast.Gt:
             p = alg.mk_ind('<0', -diff)
         elif opn is ast.LtE:
-            p = _le(diff)
+            p = _le(diff) if not self.exact_le else alg.b_not(alg.mk_ind('<0', -diff))
         elif opn is ast.GtE:
-            p = _le(-diff)
+            p = _le(-diff) if not self.exact_le else alg.b_not(alg.mk_ind('<0', diff))
         else:
             return Unk('comparison operator', e)
         return Arr(d, p, mk)
@@ -1672,6 +1694,37 @@ class LabelClash(Exception):
 BUILTINS = {'len', 'range', 'enumerate', 'int', 'float', 'min', 'max', 'isinstance', 'type', 'print', 'abs', 'list', 'tuple',
             'str', 'open', 'sorted', 'zip', 'dict', 'set', 'sum', 'any', 'all', 'bool', 'input', 'Exception', 'ValueError',
             'TypeError', 'KeyError', 'IndexError', 'EOFError', 'AssertionError', 'AttributeError', 'object', 'NotImplemented'}
+
+
+def decide_with(interp, test, env, mod, facts=None, consts=None):
+    """Evaluate a branch test symbolically and decide it under a configuration given as side conditions
+    (``facts``: alg.Facts) and constant values for atoms (``consts``: {atom: number}).  Independent of
+    how the code spells or names things.  Returns True / False / None."""
+    try:
+        v = interp.expr(test, dict(env), mod)
+    except Exception:
+        return None
+    if isinstance(v, bool):
+        return v
+    if not isinstance(v, Arr) or v.ndim != 0 or v.mask is not None:
+        return None
+    p = v.poly
+    if facts is not None:
+        p = facts.simplify(p)
+    if consts:
+        p = alg.rebuild(p, lambda a: Poly.const(consts[a]) if a in consts else None)
+    if p.is_const():
+        return p.const_value() != 0
+    return None
+
+
+def count_atom(label):
+    (m, c), = alg.count(label).t.items()
+    return m[0][0]
+
+
+def index_atom(label):
+    return alg.Atom(('sym', 'idx:' + str(label), (label,)))
 
 
 class Hooks:
